@@ -59,7 +59,8 @@ EVENTS['set(stale:Assoc)'] = set_context([('stale', 'Assoc')])
 for a, b in (('new:Assoc', 'new:Assoc'), ('new:Assoc', 'upd0:Assoc'), ('new:Assoc', 'new:Pre'), ('upd0:Dis', 'new:Assoc'),
              ('upd0:Assoc', 'upd1:Assoc'), ('upd0:Assoc', 'upd1:Dis'), ('new:Dis', 'new:No')):
     EVENTS[f'set({a},{b})'] = set_context([tuple(a.split(':')), tuple(b.split(':'))])
-DIRECT = ['location(1)', 'location(2)', 'patient-new(A)', 'patient-new(B)', 'patient-entity-new(C)', 'patient-disassociate']
+DIRECT = ['location(1)', 'location(2)', 'patient-new(A)', 'patient-new(B)', 'patient-entity-new(C)', 'patient-disassociate',
+          'location-extra(Pre)']
 
 
 def _ctx_table(p):
@@ -220,6 +221,9 @@ def run(ctx):
         core = ['set(new:Assoc)', 'set(upd0:Dis)', 'set(upd0:Assoc)', 'set(upd1:Assoc)', 'location(1)', 'patient-new(A)',
                 'set(new:Assoc,upd0:Assoc)']
         jobs += hist.sequences(core, 3)
+    # depth 4 over the two small context sub-alphabets (order of states inside the table matters there)
+    jobs += hist.sequences(['location(1)', 'location(2)', 'location-extra(Pre)', 'location-extra(No)'], 4)
+    jobs += hist.sequences(['patient-new(A)', 'patient-new(B)', 'patient-entity-new(C)', 'patient-disassociate'], 4)
     ctx.note('histories', len(jobs))
     ctx.pmap(_work, ctx.rotate(jobs))
     ctx.assumptions.append('only the patient context has a SetContextState operation in tests/mdib_tns.xml; location changes go '
